@@ -1314,13 +1314,15 @@ def gate_replay(ck, prop, tier):
         results = [r for r in results if not r["hang"] or r["id"] in confirmed]
     if len(results) + max(0, len(again) - 8) != len(chosen):
         raise Inconclusive("only %d of %d behaviours produced a record" % (len(results), len(chosen)))
-    # a behaviour that left the model is replayed once more on its own: clock ticks are real time, and a stalled
-    # machine makes a timer see more time than the model's clock says
-    redo = [byid[r["id"]] for r in results if r.get("diverged") and not r["hang"]][:24]
+    # a behaviour that left the model, or on which a monitor fired, is replayed once more on its own before it counts: clock
+    # ticks and the monitors' allowances are real time, and a stalled machine makes a timer see more time than the model's
+    # clock says (a real defect is forced by the same schedule again and shows again)
+    redo = [byid[r["id"]] for r in results if (r.get("diverged") or r.get("stuck") or r.get("early") or r["results"] != r["accepted"])
+            and not r["hang"]][:32]
     if redo:
         rr, _ = run_life(redo, watchdog=8000, cmd="life-gate", procs=2)
         second = {r["id"]: r for r in rr}
-        results = [second.get(r["id"], r) if (r.get("diverged") and not r["hang"]) else r for r in results]
+        results = [second.get(r["id"], r) if not r["hang"] else r for r in results]
 
     def disc(kind, sig, res, detail):
         b = byid[res["id"]]
